@@ -186,80 +186,328 @@ static S scale_text(Rng &r, size_t n, const S &alphabet)
 
 // ---------------------------------------------------------------- C14
 static const char *PROP = "C14";
-static void v(const std::string &key, const std::string &detail) { vrt::violation(std::string(PROP) + ":" + key, detail); }
-
-static void roundtrip(const S &data)
+// same_storage / crosstalk / alignment / soak phases: what came before the call that is being judged (the monitors only know
+// the value in front of them); appended to every violation detail while it is set
+static std::string g_context;
+static void v(const std::string &key, const std::string &detail)
 {
-    vrt::cur_rewind();
-    vrt::cur_printf("encode data=%s\n", show(data).c_str());
-    vrt::Exact<char> in(data.data(), data.size());
-    // --- hex
-    ST::string hx = ST::hex_encode(in.data(), in.size());
+    vrt::violation(std::string(PROP) + ":" + key, g_context.empty() ? detail : detail + " [" + g_context + "]");
+}
+
+// ---------------------------------------------------------------- storage that outlives a value (same_storage / soak phases)
+// A caller's array of n bytes that starts k bytes into its heap block and ends where the block ends (red zone right behind
+// it); the caller overwrites it in place between two calls, so the library sees different content at the same address with
+// the same length.  The k bytes in front carry a canary.
+struct Pinned {
+    char *base, *p;
+    size_t n, k;
+    Pinned(size_t n_, size_t k_) : n(n_), k(k_)
+    {
+        base = static_cast<char *>(malloc(n + k ? n + k : 1));
+        if (!base) { fprintf(stderr, "vrt: out of memory\n"); _exit(98); }
+        p = base + k;
+        memset(base, 0xA5, k);
+    }
+    void put(const S &s) { if (!s.empty()) memcpy(p, s.data(), s.size()); }
+    ~Pinned() { free(base); }
+    Pinned(const Pinned &) = delete;
+    Pinned &operator=(const Pinned &) = delete;
+};
+// An object slot of the caller's: the object in it is destroyed and its successor is built in the same storage (what a
+// std::optional, a vector element or a member that is destroyed and constructed again does), so the successor has the ADDRESS
+// of its predecessor.  The release of the predecessor's heap block is parked (vrt::placement_force_parks), so that a
+// successor that needs a block of the same size gets that very block (best effort - the callers count how often it worked).
+// The storage ends where the object ends; shift 8 puts the object at 8 mod 16.
+template <typename T>
+struct Slot {
+    char *base;
+    T *p = nullptr;
+    size_t shift;
+    explicit Slot(size_t shift_ = 0) : shift(shift_)
+    {
+        base = static_cast<char *>(malloc(sizeof(T) + shift));
+        if (!base) { fprintf(stderr, "vrt: out of memory\n"); _exit(98); }
+    }
+    void *addr() const { return base + shift; }
+    void destroy()
+    {
+        if (!p) return;
+        vrt::placement_force_parks() = 2;
+        p->~T();
+        vrt::placement_force_parks() = 0;
+        p = nullptr;
+    }
+    ~Slot() { if (p) p->~T(); free(base); }
+    Slot(const Slot &) = delete;
+    Slot &operator=(const Slot &) = delete;
+};
+// (the new value is complete before the old object goes, and nothing is allocated between the release and the construction)
+static uint64_t g_rebuilt_long = 0, g_rebuilt_same_block = 0;
+static void rebuild(Slot<ST::string> &s, const S &text)
+{
+    const char *old = s.p && s.p->size() >= 16 ? s.p->c_str() : nullptr;
+    s.destroy();
+    s.p = new (s.addr()) ST::string(vrt::mk(text));
+    if (old && text.size() >= 16) { ++g_rebuilt_long; if (s.p->c_str() == old) ++g_rebuilt_same_block; }
+}
+static void rebuild(Slot<ST::char_buffer> &s, const S &data)
+{
+    const char *old = s.p && s.p->size() >= 16 ? s.p->data() : nullptr;
+    s.destroy();
+    s.p = new (s.addr()) ST::char_buffer(data.data(), data.size());
+    if (old && data.size() >= 16) { ++g_rebuilt_long; if (s.p->data() == old) ++g_rebuilt_same_block; }
+}
+
+// ---- successors of a value: same length, different content, chosen so that a cheap summary of the storage - address, length,
+// the first / last 16 units, a few sampled units, a sum / xor / order-insensitive digest of its words - does not change.
+// `alphabet`: the units a text may consist of (nullptr: any byte); the last `keep_tail` units stay where they are (the padded
+// group of a base64 text).  Returns the name of what was done; the result always differs from the input.
+static std::string successor(Rng &r, S &s, const S *alphabet, size_t keep_tail)
+{
+    const S before = s;
+    const size_t n = s.size();
+    size_t lo = 0, hi = n > keep_tail ? n - keep_tail : 0;
+    if (n >= 48 && r.chance(1, 2)) { lo = 16; hi = std::min(hi, n - 16); }       // the first and last 16 units stay as they are
+    auto other_unit = [&](char c) {
+        for (;;) {
+            const char d = alphabet ? (*alphabet)[r.below(alphabet->size())] : static_cast<char>(r.below(256));
+            if (d != c) return d;
+        }
+    };
+    std::string what;
+    for (int tries = 0; tries < 6 && s == before && hi > lo; ++tries) {
+        const size_t span = hi - lo;
+        const unsigned t = static_cast<unsigned>(r.below(11));
+        static const size_t WIDTHS[] = {1, 2, 3, 4, 6, 8, 8, 8, 12, 16, 16, 24, 32, 64};
+        size_t w = r.pick(WIDTHS);
+        size_t g = r.chance(1, 4) ? r.below(8) : 0;                                // where the grid of records starts
+        if (g >= span) g = 0;
+        while (w > 1 && (span - g) / w < 2) w /= 2;
+        const size_t cnt = (span - g) / w;
+        char *base = &s[lo + g];
+        switch (t) {
+        case 0: {                                                                  // one unit in the middle
+            static const unsigned where[] = {0, 1, 2, 3};
+            const unsigned wh = r.pick(where);
+            const size_t at = wh == 0 ? lo : wh == 1 ? hi - 1 : wh == 2 ? lo + span / 2 : lo + r.below(span);
+            s[at] = other_unit(s[at]);
+            what = sfmt("unit %zu changed", at);
+            break;
+        }
+        case 1: {                                                                  // a stretch in the middle
+            const size_t len = 1 + r.below(std::min<size_t>(span, 40)), at = lo + r.below(span - len + 1);
+            for (size_t i = 0; i < len; ++i) s[at + i] = other_unit(s[at + i]);
+            what = sfmt("units %zu..%zu changed", at, at + len);
+            break;
+        }
+        case 2: case 3: {                                                          // the records sorted in place (descending when that changes nothing)
+            if (cnt < 2) break;
+            std::vector<S> rec(cnt);
+            for (size_t i = 0; i < cnt; ++i) rec[i].assign(base + i * w, w);
+            std::sort(rec.begin(), rec.end());
+            if (t == 3) std::reverse(rec.begin(), rec.end());
+            for (size_t i = 0; i < cnt; ++i) memcpy(base + i * w, rec[i].data(), w);
+            what = sfmt("%zu records of %zu units from unit %zu sorted %s in place", cnt, w, lo + g, t == 3 ? "descending" : "ascending");
+            break;
+        }
+        case 4: {                                                                  // the order of the records reversed
+            if (cnt < 2) break;
+            for (size_t i = 0, j = cnt - 1; i < j; ++i, --j) std::swap_ranges(base + i * w, base + (i + 1) * w, base + j * w);
+            what = sfmt("order of %zu records of %zu units from unit %zu reversed", cnt, w, lo + g);
+            break;
+        }
+        case 5: case 6: {                                                          // two records exchanged
+            if (cnt < 2) break;
+            const size_t a = r.below(cnt), b = r.chance(1, 3) ? (a + 1) % cnt : r.below(cnt);
+            if (a == b) break;
+            std::swap_ranges(base + a * w, base + (a + 1) * w, base + b * w);
+            what = sfmt("records %zu and %zu (of %zu units, grid from unit %zu) exchanged", a, b, w, lo + g);
+            break;
+        }
+        case 7: {                                                                  // everything rotated by 1..7 units
+            const size_t k = 1 + r.below(7);
+            if (span <= k) break;
+            if (r.chance(1, 2)) std::rotate(s.begin() + lo, s.begin() + lo + k, s.begin() + hi);
+            else std::rotate(s.begin() + lo, s.begin() + hi - k, s.begin() + hi);
+            what = sfmt("units %zu..%zu rotated by %zu", lo, hi, k);
+            break;
+        }
+        case 8: {                                                                  // two single units exchanged
+            const size_t a = lo + r.below(span), b = lo + r.below(span);
+            std::swap(s[a], s[b]);
+            what = sfmt("units %zu and %zu exchanged", a, b);
+            break;
+        }
+        case 9: {                                                                  // two 8-byte words changed so that their xor / their sum stays
+            if (alphabet || span < 16 + g) break;
+            const size_t words = (span - g) / 8, a = r.below(words), b = (a + 1 + r.below(words - 1)) % words;
+            uint64_t x, y;
+            const uint64_t d = r.next() | 1;
+            memcpy(&x, base + 8 * a, 8); memcpy(&y, base + 8 * b, 8);
+            const bool xr = r.chance(1, 2);
+            if (xr) { x ^= d; y ^= d; } else { x += d; y -= d; }
+            memcpy(base + 8 * a, &x, 8); memcpy(base + 8 * b, &y, 8);
+            what = sfmt("8-byte words %zu and %zu (grid from unit %zu) changed, their %s unchanged", a, b, lo + g, xr ? "xor" : "sum");
+            break;
+        }
+        default:                                                                   // everything reversed
+            std::reverse(s.begin() + lo, s.begin() + hi);
+            what = sfmt("units %zu..%zu reversed", lo, hi);
+            break;
+        }
+    }
+    if (s == before) {
+        const size_t at = n / 2;
+        s[at] = other_unit(s[at]);
+        what = sfmt("unit %zu changed", at);
+    }
+    return what;
+}
+
+// ---- the monitors one round trip is made of (the same ones for every phase; the phases differ in what they are called on,
+// where that lives and in which order the calls are made)
+
+// where a caller-buffer decoder's output starts inside its heap block.  The block always ENDS where the output ends (a write
+// at index >= output_size hits the ASan red zone); -1: the per-case placement stream decides - at the address malloc returned
+// (16-byte aligned) in half of the calls, 1..15 bytes further in otherwise; 0..15: that many bytes further in.  The bytes in
+// front of the output carry a canary.
+static int g_out_align = -1;
+struct OutBuf {
+    char *base, *p;
+    size_t k;
+    explicit OutBuf(size_t n)
+    {
+        if (g_out_align >= 0) k = static_cast<size_t>(g_out_align) & 15;
+        else if (vrt::placement_here()) { const uint64_t x = vrt::placement_next(); k = (x & 1) ? 1 + static_cast<size_t>((x >> 8) % 15) : 0; }
+        else k = 0;
+        if (n == 0 && k == 0) k = 16;            // an output of no bytes: the pointer is the end of a block, so even a write at index 0 is caught
+        base = static_cast<char *>(malloc(k + n));
+        if (!base) { fprintf(stderr, "vrt: out of memory\n"); _exit(98); }
+        p = base + k;
+        memset(base, 0xA5, k);
+        if (n) memset(p, 0xEE, n);
+        static uint64_t &c0 = vrt::counter("placement.outputs_16_byte_aligned"), &c1 = vrt::counter("placement.outputs_not_16_byte_aligned");
+        ++((k & 15) ? c1 : c0);
+    }
+    bool front_intact() const
+    {
+        for (size_t i = 0; i < k; ++i) if (static_cast<unsigned char>(base[i]) != 0xA5) return false;
+        return true;
+    }
+    ~OutBuf() { free(base); }
+    OutBuf(const OutBuf &) = delete;
+    OutBuf &operator=(const OutBuf &) = delete;
+};
+
+// pointer overloads: the text against the reference, its length, its terminator
+static ST::string enc_hex(const char *in, const S &data, const S &want, S &hxs)
+{
+    ST::string hx = ST::hex_encode(in, data.size());
     vrt::evals();
-    S hxs = vrt::str_of(hx), want = ref_hex(data);
+    hxs = vrt::str_of(hx);
     if (hxs != want) v("hex_encode:wrong", sfmt("data=%s got=%s want=%s", show(data).c_str(), txt(hxs, want).c_str(), txt(want, hxs).c_str()));
     if (hx.size() != 2 * data.size()) v("hex_encode:length", sfmt("data=%s size=%zu", show(data).c_str(), hx.size()));
     if (hx.c_str()[hx.size()] != 0) v("hex_encode:no-terminator", show(data));
-    ST::char_buffer cb(data.data(), data.size());
-    if (ST::hex_encode(cb) != hx) v("hex_encode:buffer-overload-differs", show(data));
+    return hx;
+}
+static ST::string enc_b64(const char *in, const S &data, const S &want, S &bs)
+{
+    ST::string b = ST::base64_encode(in, data.size());
     vrt::evals();
-    auto decode_both = [&](const char *codec, const ST::string &text, bool is_hex) {
-        try {
-            ST::char_buffer d = is_hex ? ST::hex_decode(text) : ST::base64_decode(text);
-            vrt::evals();
-            if (S(d.data(), d.size()) != data)
-                v(sfmt("%s:roundtrip-alloc", codec), sfmt("data=%s text=%s back=%s", show(data).c_str(), txt(text).c_str(), vrt::hex(d.data(), d.size()).c_str()));
-            if (d.data()[d.size()] != 0) v(sfmt("%s:decode-no-terminator", codec), show(data));
-        } catch (const ST::codec_error &e) {
-            v(sfmt("%s:roundtrip-alloc-threw", codec), sfmt("data=%s text=%s: %s", show(data).c_str(), txt(text).c_str(), e.what()));
-        }
-        // caller-buffer decoder, buffer of exactly the needed size
-        long need = static_cast<long>(is_hex ? ST::hex_decode(text, nullptr, 0) : ST::base64_decode(text, nullptr, 0));
-        vrt::evals();
-        if (need != static_cast<long>(data.size())) {
-            v(sfmt("%s:null-output-length", codec), sfmt("data=%s text=%s got=%ld want=%zu", show(data).c_str(), txt(text).c_str(), need, data.size()));
-            return;
-        }
-        vrt::Exact<char> out(data.data(), data.size());
-        memset(out.p, 0xEE, data.size());
-        long w = static_cast<long>(is_hex ? ST::hex_decode(text, out.p, data.size()) : ST::base64_decode(text, out.p, data.size()));
-        vrt::evals();
-        if (w != static_cast<long>(data.size()) || memcmp(out.p, data.data(), data.size()) != 0)
-            v(sfmt("%s:roundtrip-buffer", codec), sfmt("data=%s text=%s returned=%ld back=%s", show(data).c_str(), txt(text).c_str(), w, vrt::hex(out.p, data.size()).c_str()));
-    };
-    decode_both("hex", hx, true);
-    ST::string up = hx.to_upper();
-    decode_both("hex-upper", up, true);
-    if (data.size() % 2 == 0) {          // mixed case as well
-        S mixed = hxs;
-        for (size_t i = 0; i < mixed.size(); i += 3) mixed[i] = static_cast<char>(toupper(static_cast<unsigned char>(mixed[i])));
-        decode_both("hex-mixed", vrt::mk(mixed), true);
-    }
-    // --- base64
-    ST::string b = ST::base64_encode(in.data(), in.size());
-    vrt::evals();
-    S bs = vrt::str_of(b);
-    want = ref_b64(data);
+    bs = vrt::str_of(b);
     if (bs != want) v("base64_encode:wrong", sfmt("data=%s got=%s want=%s", show(data).c_str(), txt(bs, want).c_str(), txt(want, bs).c_str()));
     if (b.size() != 4 * ((data.size() + 2) / 3)) v("base64_encode:length", sfmt("data=%s size=%zu", show(data).c_str(), b.size()));
     if (b.c_str()[b.size()] != 0) v("base64_encode:no-terminator", show(data));
-    if (ST::base64_encode(cb) != b) v("base64_encode:buffer-overload-differs", show(data));
+    return b;
+}
+// char_buffer overloads: the same text as `expect`
+static void enc_cb(const ST::char_buffer &cb, const S &data, const S &expect, bool is_hex)
+{
+    const ST::string t = is_hex ? ST::hex_encode(cb) : ST::base64_encode(cb);
     vrt::evals();
-    decode_both("base64", b, false);
-    // results assigned to variables that already hold something (a short result over a long value and the reverse):
-    // "decode back to the original bytes" is about what the caller ends up holding
-    {
-        ST::string enc("a previous value that is long enough to live on the heap"), enc2("short");
-        ST::char_buffer dec("another previous value, also long enough for the heap", 53), dec2("tiny", 4);
-        enc = ST::hex_encode(in.data(), in.size()); enc2 = ST::base64_encode(in.data(), in.size());
-        dec = ST::hex_decode(enc); dec2 = ST::base64_decode(enc2);
-        vrt::evals(4);
-        if (vrt::str_of(enc) != hxs || vrt::str_of(enc2) != bs) v("encode:assigned-over-previous-value", sfmt("data=%s hex=%s base64=%s", show(data).c_str(), txt(enc).c_str(), txt(enc2).c_str()));
-        if (S(dec.data(), dec.size()) != data || S(dec2.data(), dec2.size()) != data || dec.data()[dec.size()] != 0 || dec2.data()[dec2.size()] != 0)
-            v("decode:assigned-over-previous-value", sfmt("data=%s hex gave %s base64 gave %s", show(data).c_str(), vrt::hex(dec.data(), dec.size()).c_str(), vrt::hex(dec2.data(), dec2.size()).c_str()));
+    if (t.size() != expect.size() || memcmp(t.c_str(), expect.data(), expect.size()) != 0)
+        v(is_hex ? "hex_encode:buffer-overload-differs" : "base64_encode:buffer-overload-differs", show(data));
+}
+// `text` (an encoding of `data`) back through the allocating decoder, the size query and the caller-buffer decoder with a
+// buffer of exactly the needed size
+static void decode_back(const char *codec, const ST::string &text, bool is_hex, const S &data)
+{
+    try {
+        ST::char_buffer d = is_hex ? ST::hex_decode(text) : ST::base64_decode(text);
+        vrt::evals();
+        if (S(d.data(), d.size()) != data)
+            v(sfmt("%s:roundtrip-alloc", codec), sfmt("data=%s text=%s back=%s", show(data).c_str(), txt(text).c_str(), vrt::hex(d.data(), d.size()).c_str()));
+        if (d.data()[d.size()] != 0) v(sfmt("%s:decode-no-terminator", codec), show(data));
+    } catch (const ST::codec_error &e) {
+        v(sfmt("%s:roundtrip-alloc-threw", codec), sfmt("data=%s text=%s: %s", show(data).c_str(), txt(text).c_str(), e.what()));
     }
+    // caller-buffer decoder, buffer of exactly the needed size
+    long need = static_cast<long>(is_hex ? ST::hex_decode(text, nullptr, 0) : ST::base64_decode(text, nullptr, 0));
+    vrt::evals();
+    if (need != static_cast<long>(data.size())) {
+        v(sfmt("%s:null-output-length", codec), sfmt("data=%s text=%s got=%ld want=%zu", show(data).c_str(), txt(text).c_str(), need, data.size()));
+        return;
+    }
+    if (g_out_align >= 0) {
+        // alignment-directed phases: the output at a chosen distance from a 16-byte boundary
+        OutBuf out(data.size());
+        long w = static_cast<long>(is_hex ? ST::hex_decode(text, out.p, data.size()) : ST::base64_decode(text, out.p, data.size()));
+        vrt::evals();
+        if (w != static_cast<long>(data.size()) || memcmp(out.p, data.data(), data.size()) != 0)
+            v(sfmt("%s:roundtrip-buffer", codec), sfmt("data=%s text=%s returned=%ld back=%s (output %zu bytes past a 16-byte boundary)", show(data).c_str(), txt(text).c_str(), w, vrt::hex(out.p, data.size()).c_str(), out.k));
+        if (!out.front_intact()) v(sfmt("%s:wrote-before-output", codec), sfmt("data=%s text=%s (output %zu bytes past a 16-byte boundary)", show(data).c_str(), txt(text).c_str(), out.k));
+        return;
+    }
+    vrt::Exact<char> out(data.data(), data.size());
+    memset(out.p, 0xEE, data.size());
+    long w = static_cast<long>(is_hex ? ST::hex_decode(text, out.p, data.size()) : ST::base64_decode(text, out.p, data.size()));
+    vrt::evals();
+    if (w != static_cast<long>(data.size()) || memcmp(out.p, data.data(), data.size()) != 0)
+        v(sfmt("%s:roundtrip-buffer", codec), sfmt("data=%s text=%s returned=%ld back=%s", show(data).c_str(), txt(text).c_str(), w, vrt::hex(out.p, data.size()).c_str()));
+}
+// results assigned to variables that already hold something (a short result over a long value and the reverse):
+// "decode back to the original bytes" is about what the caller ends up holding
+static void assigned_over(const char *in, const S &data, const S &hxs, const S &bs)
+{
+    ST::string enc("a previous value that is long enough to live on the heap"), enc2("short");
+    ST::char_buffer dec("another previous value, also long enough for the heap", 53), dec2("tiny", 4);
+    enc = ST::hex_encode(in, data.size()); enc2 = ST::base64_encode(in, data.size());
+    dec = ST::hex_decode(enc); dec2 = ST::base64_decode(enc2);
+    vrt::evals(4);
+    if (vrt::str_of(enc) != hxs || vrt::str_of(enc2) != bs) v("encode:assigned-over-previous-value", sfmt("data=%s hex=%s base64=%s", show(data).c_str(), txt(enc).c_str(), txt(enc2).c_str()));
+    if (S(dec.data(), dec.size()) != data || S(dec2.data(), dec2.size()) != data || dec.data()[dec.size()] != 0 || dec2.data()[dec2.size()] != 0)
+        v("decode:assigned-over-previous-value", sfmt("data=%s hex gave %s base64 gave %s", show(data).c_str(), vrt::hex(dec.data(), dec.size()).c_str(), vrt::hex(dec2.data(), dec2.size()).c_str()));
 }
 
+// one round trip of `data`, which the library reads from `in` (data.size() bytes that end where their heap block ends)
+static void roundtrip_at(const char *in, const S &data)
+{
+    vrt::cur_rewind();
+    vrt::cur_printf("encode data=%s\n", show(data).c_str());
+    // --- hex
+    S hxs, bs;
+    ST::string hx = enc_hex(in, data, ref_hex(data), hxs);
+    ST::char_buffer cb(data.data(), data.size());
+    enc_cb(cb, data, hxs, true);
+    decode_back("hex", hx, true, data);
+    ST::string up = hx.to_upper();
+    decode_back("hex-upper", up, true, data);
+    if (data.size() % 2 == 0) {          // mixed case as well
+        S mixed = hxs;
+        for (size_t i = 0; i < mixed.size(); i += 3) mixed[i] = static_cast<char>(toupper(static_cast<unsigned char>(mixed[i])));
+        decode_back("hex-mixed", vrt::mk(mixed), true, data);
+    }
+    // --- base64
+    ST::string b = enc_b64(in, data, ref_b64(data), bs);
+    enc_cb(cb, data, bs, false);
+    decode_back("base64", b, false, data);
+    assigned_over(in, data, hxs, bs);
+}
+static void roundtrip(const S &data)
+{
+    vrt::Exact<char> in(data.data(), data.size());
+    roundtrip_at(in.data(), data);
+}
 
 // ---------------------------------------------------------------- beyond 32 bits (C14, thorough tier only)
 // One byte array of 2^32 + ~1000 bytes through base64_encode / hex_encode and back through the caller-buffer decoders.  The
@@ -516,6 +764,213 @@ static void beyond32_phase()
     vrt::case_cpu_budget() = 30;
 }
 
+// ---------------------------------------------------------------- C14: same_storage / alignment / soak
+// the storage one sequence of values goes through: the caller's array handed to the pointer overloads, the char_buffer handed
+// to the buffer overloads, the text objects handed to the decoders
+struct Pins {
+    Pinned in;
+    Slot<ST::char_buffer> cb;
+    Slot<ST::string> hex_text, b64_text;
+    Pins(size_t n, size_t k, size_t shift) : in(n, k), cb(shift), hex_text(shift), b64_text(8 - shift) { }
+};
+enum { OP_HEX, OP_HEX_CB, OP_B64, OP_B64_CB, OP_DEC_HEX, OP_DEC_HEX_UPPER, OP_DEC_B64, OP_ASSIGNED, N_OPS };
+// `data` has just been written over its predecessor in pn.in; the operations in `ops` in that order, each judged by the monitor
+// every other phase uses
+static void pinned_step(Pins &pn, const S &data, const std::vector<unsigned> &ops)
+{
+    const S want_hex = ref_hex(data), want_b64 = ref_b64(data);
+    S hxs, bs;
+    bool cb_built = false;
+    for (unsigned op : ops) {
+        switch (op) {
+        case OP_HEX: (void)enc_hex(pn.in.p, data, want_hex, hxs); break;
+        case OP_B64: (void)enc_b64(pn.in.p, data, want_b64, bs); break;
+        case OP_HEX_CB: case OP_B64_CB:
+            if (!cb_built) { rebuild(pn.cb, data); cb_built = true; }
+            enc_cb(*pn.cb.p, data, op == OP_HEX_CB ? want_hex : want_b64, op == OP_HEX_CB);
+            break;
+        case OP_DEC_HEX: rebuild(pn.hex_text, want_hex); decode_back("hex", *pn.hex_text.p, true, data); break;
+        case OP_DEC_HEX_UPPER: {
+            S up = want_hex;
+            for (char &c : up) if (c >= 'a' && c <= 'f') c = static_cast<char>(c - 32);
+            rebuild(pn.hex_text, up);
+            decode_back("hex-upper", *pn.hex_text.p, true, data);
+            break;
+        }
+        case OP_DEC_B64: rebuild(pn.b64_text, want_b64); decode_back("base64", *pn.b64_text.p, false, data); break;
+        default: assigned_over(pn.in.p, data, want_hex, want_b64); break;
+        }
+        vrt::count("same_storage.operations");
+    }
+    for (size_t i = 0; i < pn.in.k; ++i)
+        if (static_cast<unsigned char>(pn.in.base[i]) != 0xA5) { v("encode:wrote-before-input", sfmt("data=%s: the bytes in front of the caller's array were modified", show(data).c_str())); break; }
+    if (memcmp(pn.in.p, data.data(), data.size()) != 0) v("encode:modified-input", sfmt("data=%s: the caller's array was modified", show(data).c_str()));
+}
+static void shuffle(Rng &r, std::vector<unsigned> &x)
+{
+    for (size_t i = x.size(); i > 1; --i) std::swap(x[i - 1], x[r.below(i)]);
+}
+
+static void c14_history_phases()
+{
+    // same_storage: ONE caller's array (every start alignment 0..15, ending where its heap block ends) that is rewritten in
+    // place between consecutive calls, one char_buffer slot and one text slot per codec whose objects are destroyed and rebuilt
+    // at the same address: 4..7 values of identical length per case, each a successor of the one before (same first / last 16
+    // bytes with a different middle; the same multiset of 1/2/3/4/6/8/12/16/24/32/64-byte records in another order - sorted in
+    // place, two exchanged, reversed; rotated by 1..7 bytes; two words changed with their sum or xor kept).  4- and 6-byte
+    // records of the data are 8-character words of its hex / base64 text, so the texts get the same treatment.
+    {
+        vrt::require("same_storage.cases", 200);
+        vrt::require("same_storage.values_written_over_their_predecessor", 800);
+        vrt::require("same_storage.successor_has_the_same_multiset_of_8_byte_words", 100);
+        vrt::require("same_storage.successor_has_the_same_first_and_last_16_bytes", 200);
+        vrt::require("same_storage.array>=64KiB", 8);
+        vrt::require("same_storage.objects_rebuilt_in_the_heap_block_of_their_predecessor", 500);
+        // (an odd number of sizes: case i runs on worker i % 16, and every worker is to meet every size)
+        static const size_t SIZES[] = {20, 40, 64, 100, 256, 300, 512, 520, 1000, 1024, 1500, 4096, 5000, 8192, 16384, 24576, 65536, 131072, 262144};
+        const uint64_t NS = sizeof(SIZES) / sizeof(SIZES[0]), PER = NS * 16;
+        vrt::phase("same_storage", vrt::tier_count(PER * 2, PER * 20), [&](uint64_t i, Rng &r) {
+            size_t n = SIZES[i % NS];
+            const size_t k = (i / NS) % 16;
+            const uint64_t round = i / PER;
+            if (round % 2 == 1) n = r.chance(1, 2) ? 512 + r.below(65536 - 512 + 1) : scale::length(r, 65536, 512);
+            if (i % 67 == 37) n = (1u << 20) - r.below(3);                          // a few of 1 MiB
+            static const unsigned kinds[] = {0, 0, 0, 4, 5};
+            const unsigned kind = r.pick(kinds);
+            S data = scale_bytes(r, n, kind);
+            Pins pn(n, k, (i & 1) ? 8 : 0);
+            const size_t K = n >= (1u << 20) - 8 ? 3 : n >= 131072 ? 4 : 4 + r.below(4);
+            // which operations this sequence consists of: all of them, one encoder alone (consecutive calls of one entry point
+            // on the same storage), one codec, a random selection
+            std::vector<unsigned> ops;
+            const unsigned mode = static_cast<unsigned>(r.below(8));
+            switch (mode) {
+            case 0: ops = {OP_B64}; break;
+            case 1: ops = {OP_HEX}; break;
+            case 2: ops = {OP_B64, OP_B64_CB, OP_DEC_B64}; break;
+            case 3: ops = {OP_HEX, OP_HEX_CB, OP_DEC_HEX, OP_DEC_HEX_UPPER}; break;
+            case 4: for (unsigned o = 0; o < N_OPS; ++o) if (r.chance(1, 2)) ops.push_back(o); if (ops.empty()) ops.push_back(OP_B64_CB); break;
+            default: for (unsigned o = 0; o < N_OPS; ++o) ops.push_back(o); break;
+            }
+            const uint64_t l0 = g_rebuilt_long, s0 = g_rebuilt_same_block;
+            std::string history;
+            for (size_t step = 0; step < K; ++step) {
+                std::string what = "first value";
+                if (step) {
+                    const S prev = data;
+                    what = successor(r, data, nullptr, 0);
+                    S a = prev, b = data;
+                    if (n >= 32 && memcmp(prev.data(), data.data(), 16) == 0 && memcmp(prev.data() + n - 16, data.data() + n - 16, 16) == 0)
+                        vrt::count("same_storage.successor_has_the_same_first_and_last_16_bytes");
+                    const size_t w8 = n / 8 * 8;
+                    std::vector<uint64_t> wa(n / 8), wb(n / 8);
+                    if (w8) { memcpy(wa.data(), a.data(), w8); memcpy(wb.data(), b.data(), w8); }
+                    std::sort(wa.begin(), wa.end()); std::sort(wb.begin(), wb.end());
+                    if (w8 && wa == wb && a.compare(w8, S::npos, b, w8, S::npos) == 0) vrt::count("same_storage.successor_has_the_same_multiset_of_8_byte_words");
+                    std::sort(a.begin(), a.end()); std::sort(b.begin(), b.end());
+                    if (a == b) vrt::count("same_storage.successor_has_the_same_multiset_of_bytes");
+                    vrt::count("same_storage.values_written_over_their_predecessor");
+                }
+                pn.in.put(data);
+                shuffle(r, ops);
+                g_context = sfmt("same_storage: value %zu of %zu in a caller's array of %zu bytes (%zu bytes past a 16-byte boundary) that is rewritten in place; this value: %s", step + 1, K, n, k, what.c_str());
+                vrt::cur_rewind();
+                vrt::cur_printf("%s data=%s\n", g_context.c_str(), show(data).c_str());
+                pinned_step(pn, data, ops);
+                if (history.size() < 600) history += (step ? " | " : "") + what;
+                vrt::distinct(vrt::fnv1a(data.data(), data.size(), 46));
+            }
+            g_context.clear();
+            vrt::count("same_storage.objects_rebuilt", g_rebuilt_long - l0);
+            vrt::count("same_storage.objects_rebuilt_in_the_heap_block_of_their_predecessor", g_rebuilt_same_block - s0);
+            vrt::count("same_storage.cases");
+            if (n >= 65536) vrt::count("same_storage.array>=64KiB");
+            if (n >= (1u << 20) - 8) vrt::count("same_storage.array>=1MiB");
+            if (vrt::want_sample("same_storage") && n >= 1000 && mode >= 5)
+                vrt::sample("same_storage", sfmt("array of %zu bytes (%s), %zu bytes past a 16-byte boundary, %zu values: %s", n, CONTENT[kind], k, K, history.c_str()));
+        });
+    }
+    // alignment: the array handed to the encoders at every distance 0..15 from a 16-byte boundary (it still ends where its
+    // heap block ends), crossed with the output of the caller-buffer decoders at every such distance, for arrays of 8 .. 600
+    // bytes; the array is rewritten in place for every combination.
+    {
+        vrt::require("alignment.roundtrips", 10000);
+        vrt::require("alignment.input_and_output_distances_covered", 256);
+        std::vector<size_t> sizes;
+        for (size_t n = 8; n <= 40; ++n) sizes.push_back(n);
+        for (size_t n : {47, 48, 49, 63, 64, 65, 71, 95, 96, 97, 100, 127, 128, 129, 191, 192, 193, 255, 256, 257, 300, 383, 384, 385, 511, 512, 513, 600}) sizes.push_back(n);
+        const uint64_t NS = sizes.size();
+        static bool seen[16][16];
+        vrt::phase("alignment", vrt::tier_count(NS, NS * 20), [&](uint64_t i, Rng &r) {
+            const size_t n = i < NS ? sizes[i] : 8 + r.below(593);
+            for (size_t kin = 0; kin < 16; ++kin) {
+                Pinned in(n, kin);
+                for (int kout = 0; kout < 16; ++kout) {
+                    const S data = scale_bytes(r, n, r.chance(1, 8) ? 2 : 0);
+                    in.put(data);
+                    g_out_align = kout;
+                    g_context = sfmt("alignment: array of %zu bytes %zu bytes past a 16-byte boundary, decoder output %d bytes past one", n, kin, kout);
+                    roundtrip_at(in.p, data);
+                    g_out_align = -1;
+                    vrt::count("alignment.roundtrips");
+                    if (!seen[kin][kout]) { seen[kin][kout] = true; vrt::count("alignment.input_and_output_distances_covered"); }
+                }
+            }
+            g_context.clear();
+            if (vrt::want_sample("alignment") && n == 100) vrt::sample("alignment", sfmt("arrays of %zu bytes at 16 x 16 (input, decoder output) distances from a 16-byte boundary", n));
+        });
+    }
+    // soak: more than 70000 consecutive round trips in ONE case (one process), on arrays of 16..64 (sometimes up to 300) bytes
+    // in one caller's arena that is rewritten in place (the array ends where the arena ends, so where it starts varies with
+    // its length); runs of 64..300 calls with the very same arguments followed directly by an array that differs from them
+    // only in its last 1..7 bytes.
+    {
+        vrt::require("soak.cases", 16);
+        vrt::require("soak.roundtrips", 16 * 70000);
+        vrt::require("soak.runs_of_equal_calls_followed_by_a_different_tail", 16 * 20);
+        vrt::phase("soak", vrt::tier_count(16, 64), [&](uint64_t, Rng &r) {
+            const size_t ARENA = 320;
+            Pinned arena(ARENA, r.below(16));
+            Slot<ST::string> slot_h(0), slot_b(8);
+            uint64_t done = 0, runs = 0;
+            S data, want_h, want_b, hxs, bs;
+            auto one = [&](bool note) {
+                char *p = arena.p + ARENA - data.size();
+                memcpy(p, data.data(), data.size());
+                if (note) { vrt::cur_rewind(); vrt::cur_printf("soak round trip %llu data=%s\n", static_cast<unsigned long long>(done), vrt::hex(data.data(), data.size()).c_str()); }
+                want_h = ref_hex(data); want_b = ref_b64(data);
+                const unsigned how = static_cast<unsigned>(r.below(4));
+                if (how & 1) { (void)enc_b64(p, data, want_b, bs); (void)enc_hex(p, data, want_h, hxs); }
+                else { (void)enc_hex(p, data, want_h, hxs); (void)enc_b64(p, data, want_b, bs); }
+                if (how & 2) { rebuild(slot_h, want_h); rebuild(slot_b, want_b); decode_back("hex", *slot_h.p, true, data); decode_back("base64", *slot_b.p, false, data); }
+                else { const ST::string th = vrt::mk(want_h), tb = vrt::mk(want_b); decode_back("base64", tb, false, data); decode_back("hex", th, true, data); }
+                ++done;
+            };
+            while (done < 72000) {
+                const size_t n = r.chance(1, 8) ? 65 + r.below(236) : 16 + r.below(49);
+                data = r.chance(1, 6) ? scale_bytes(r, n, static_cast<unsigned>(1 + r.below(4))) : scale_bytes(r, n, 0);
+                g_context = sfmt("soak: round trip %llu of one process", static_cast<unsigned long long>(done));
+                one(true);
+                if (r.chance(1, 400)) {
+                    const size_t reps = 64 + r.below(237);
+                    g_context = sfmt("soak: round trips %llu.. of one process: %zu with the same arguments, then one whose array differs only in its last bytes", static_cast<unsigned long long>(done), reps);
+                    for (size_t q = 0; q < reps; ++q) one(q == 0);
+                    const size_t tail = 1 + r.below(7);
+                    for (size_t q = 0; q < tail; ++q) if (r.chance(2, 3) || q == 0) data[n - 1 - q] = static_cast<char>(data[n - 1 - q] ^ (1 + r.below(255)));
+                    one(true);
+                    ++runs;
+                }
+            }
+            g_context.clear();
+            vrt::count("soak.cases");
+            vrt::count("soak.roundtrips", done);
+            vrt::count("soak.runs_of_equal_calls_followed_by_a_different_tail", runs);
+            vrt::distinct(vrt::fnv_u64(done, 47));
+            if (vrt::want_sample("soak")) vrt::sample("soak", sfmt("%llu consecutive round trips (hex_encode, base64_encode, both decoders in their three forms) in one case, %llu runs of 64..300 calls with the same arguments", static_cast<unsigned long long>(done), static_cast<unsigned long long>(runs)));
+        });
+    }
+}
+
 static void c14_body()
 {
     vrt::require("groups.3byte", 1 << 18);
@@ -617,79 +1072,437 @@ static void c14_body()
                 vrt::sample("scale", sfmt("data %s (%s): %zu bytes = (base64 text of %zu x %zu characters) %+ld", scale::brief(data).c_str(), CONTENT[kind], n, q, B, d));
         });
     }
+    c14_history_phases();
     if (vrt::thorough()) beyond32_phase();
 }
 
 // ---------------------------------------------------------------- C15
-static void decode_case(const S &text, bool is_hex)
-{
-    const char *codec = is_hex ? "hex_decode" : "base64_decode";
-    vrt::cur_rewind();
-    vrt::cur_printf("%s text=%s\n", codec, showt(text).c_str());
+// what the decoder monitors of one text share: the text object handed to the library, the bytes it holds, the reference's answer
+struct DC {
+    const ST::string &st;
+    const S &text;
+    bool is_hex;
+    const char *codec;
+    bool ok;
     S want;
-    const bool ok = is_hex ? ref_hex_decode(text, want) : ref_b64_decode(text, want);
-    const long implied = is_hex ? implied_hex(text) : implied_b64(text);
-    vrt::Box<ST::string> st(vrt::mk(text));
-    // allocating form
+    long implied;
+    size_t len;          // the decoded length implied by length and padding, or (no such length) the length of the text
+    DC(const ST::string &st_, const S &text_, bool is_hex_) : st(st_), text(text_), is_hex(is_hex_), codec(is_hex_ ? "hex_decode" : "base64_decode")
+    {
+        ok = is_hex ? ref_hex_decode(text, want) : ref_b64_decode(text, want);
+        implied = is_hex ? implied_hex(text) : implied_b64(text);
+        len = implied >= 0 ? static_cast<size_t>(implied) : text.size();
+    }
+};
+// allocating form
+static void dc_alloc(const DC &c)
+{
     vrt::evals();
     try {
-        ST::char_buffer d = is_hex ? ST::hex_decode(*st) : ST::base64_decode(*st);
-        if (!ok) v(sfmt("%s:alloc-accepted-invalid", codec), sfmt("text=%s decoded=%s", showt(text).c_str(), vrt::hex(d.data(), d.size()).c_str()));
-        else if (S(d.data(), d.size()) != want) v(sfmt("%s:alloc-wrong-bytes", codec), sfmt("text=%s got=%s want=%s", showt(text).c_str(), vrt::hex(d.data(), d.size()).c_str(), show(want).c_str()));
-        if (d.data()[d.size()] != 0) v(sfmt("%s:no-terminator", codec), showt(text));
+        ST::char_buffer d = c.is_hex ? ST::hex_decode(c.st) : ST::base64_decode(c.st);
+        if (!c.ok) v(sfmt("%s:alloc-accepted-invalid", c.codec), sfmt("text=%s decoded=%s", showt(c.text).c_str(), vrt::hex(d.data(), d.size()).c_str()));
+        else if (S(d.data(), d.size()) != c.want) v(sfmt("%s:alloc-wrong-bytes", c.codec), sfmt("text=%s got=%s want=%s", showt(c.text).c_str(), vrt::hex(d.data(), d.size()).c_str(), show(c.want).c_str()));
+        if (d.data()[d.size()] != 0) v(sfmt("%s:no-terminator", c.codec), showt(c.text));
     } catch (const ST::codec_error &) {
-        if (ok) v(sfmt("%s:alloc-rejected-valid", codec), sfmt("text=%s", showt(text).c_str()));
+        if (c.ok) v(sfmt("%s:alloc-rejected-valid", c.codec), sfmt("text=%s", showt(c.text).c_str()));
     }
-    // null output: decoded length implied by length and padding
+}
+// null output: decoded length implied by length and padding
+static void dc_query(const DC &c, size_t declared)
+{
     vrt::evals();
-    long nl = static_cast<long>(is_hex ? ST::hex_decode(*st, nullptr, 0) : ST::base64_decode(*st, nullptr, 0));
-    if (nl != implied) v(sfmt("%s:null-output-length", codec), sfmt("text=%s got=%ld want=%ld", showt(text).c_str(), nl, implied));
-    long nl2 = static_cast<long>(is_hex ? ST::hex_decode(*st, nullptr, 1000) : ST::base64_decode(*st, nullptr, 1000));
-    if (nl2 != implied) v(sfmt("%s:null-output-length", codec), sfmt("text=%s output_size=1000 got=%ld want=%ld", showt(text).c_str(), nl2, implied));
+    long nl = static_cast<long>(c.is_hex ? ST::hex_decode(c.st, nullptr, declared) : ST::base64_decode(c.st, nullptr, declared));
+    if (nl != c.implied) {
+        if (declared == 0) v(sfmt("%s:null-output-length", c.codec), sfmt("text=%s got=%ld want=%ld", showt(c.text).c_str(), nl, c.implied));
+        else v(sfmt("%s:null-output-length", c.codec), sfmt("text=%s output_size=%zu got=%ld want=%ld", showt(c.text).c_str(), declared, nl, c.implied));
+    }
+}
+// caller-buffer form, a buffer of exactly output_size bytes: a write at index >= output_size hits the red zone
+static void dc_buffer(const DC &c, size_t osz)
+{
+    vrt::evals();
+    OutBuf ob(osz);
+    char *out = ob.p;
+    long w = static_cast<long>(c.is_hex ? ST::hex_decode(c.st, out, osz) : ST::base64_decode(c.st, out, osz));
+    if (!c.ok) {
+        if (w != -1) v(sfmt("%s:buffer-accepted-invalid", c.codec), sfmt("text=%s output_size=%zu returned=%ld", showt(c.text).c_str(), osz, w));
+    } else if (osz < c.want.size()) {
+        if (w != -1) v(sfmt("%s:buffer-too-small-not-rejected", c.codec), sfmt("text=%s output_size=%zu returned=%ld", showt(c.text).c_str(), osz, w));
+        vrt::count("buffer.too_small");
+    } else {
+        if (w != static_cast<long>(c.want.size()) || memcmp(out, c.want.data(), c.want.size()) != 0)
+            v(sfmt("%s:buffer-wrong", c.codec), sfmt("text=%s output_size=%zu returned=%ld got=%s want=%s", showt(c.text).c_str(), osz, w, vrt::hex(out, std::min(osz, c.want.size())).c_str(), show(c.want).c_str()));
+        for (size_t k = c.want.size(); k < osz; ++k)
+            if (static_cast<unsigned char>(out[k]) != 0xEE) {
+                v(sfmt("%s:wrote-beyond-returned-length", c.codec), sfmt("text=%s output_size=%zu byte %zu modified", showt(c.text).c_str(), osz, k));
+                break;
+            }
+        vrt::count("buffer.success");
+    }
+    if (!ob.front_intact()) v(sfmt("%s:wrote-before-output", c.codec), sfmt("text=%s output_size=%zu: bytes in front of the output modified (output %zu bytes past a 16-byte boundary)", showt(c.text).c_str(), osz, ob.k));
+}
+// declared sizes far above the decoded length ("unbounded" callers): the buffer
+// really has `len` bytes, so any write past the decoded length hits the red zone
+static void dc_huge(const DC &c, size_t osz)
+{
+    vrt::evals();
+    OutBuf ob(c.len);
+    char *out = ob.p;
+    long w = static_cast<long>(c.is_hex ? ST::hex_decode(c.st, out, osz) : ST::base64_decode(c.st, out, osz));
+    if (!c.ok) {
+        if (w != -1) v(sfmt("%s:buffer-accepted-invalid", c.codec), sfmt("text=%s output_size=%zu returned=%ld", showt(c.text).c_str(), osz, w));
+    } else if (w != static_cast<long>(c.want.size()) || memcmp(out, c.want.data(), c.want.size()) != 0) {
+        v(sfmt("%s:buffer-wrong", c.codec), sfmt("text=%s output_size=%zu returned=%ld want=%s", showt(c.text).c_str(), osz, w, show(c.want).c_str()));
+    }
+    if (!ob.front_intact()) v(sfmt("%s:wrote-before-output", c.codec), sfmt("text=%s output_size=%zu: bytes in front of the output modified (output %zu bytes past a 16-byte boundary)", showt(c.text).c_str(), osz, ob.k));
+    vrt::count("buffer.huge_output_size");
+}
+static const size_t HUGE_SIZES[4] = {static_cast<size_t>(-1), static_cast<size_t>(1) << 63, (static_cast<size_t>(1) << 63) - 1, static_cast<size_t>(1) << 32};
+static void dc_done(const DC &c)
+{
+    vrt::count(c.ok ? (c.is_hex ? "hex.valid" : "base64.valid") : (c.is_hex ? "hex.invalid" : "base64.invalid"));
+    vrt::distinct(vrt::fnv_u64(c.is_hex, vrt::fnv1a(c.text.data(), c.text.size(), 44)));
+}
+// every monitor on the text object `st` (which holds `text`); `order` varies the order of the calls (0: the order every
+// phase but same_storage / crosstalk uses)
+static void decode_checks(const ST::string &st, const S &text, bool is_hex, unsigned order = 0)
+{
+    vrt::cur_rewind();
+    vrt::cur_printf("%s text=%s\n", is_hex ? "hex_decode" : "base64_decode", showt(text).c_str());
+    const DC c(st, text, is_hex);
     // caller-buffer form with output_size below, at and above the decoded length
-    const size_t len = implied >= 0 ? static_cast<size_t>(implied) : text.size();
-    std::vector<size_t> sizes = {0, len, len + 1, len + 64};
-    if (len) sizes.push_back(len - 1);
-    if (len > 2) sizes.push_back(len - 2);
-    if (len > 3) sizes.push_back(len / 2);
-    for (size_t osz : sizes) {
-        vrt::evals();
-        char *out = static_cast<char *>(malloc(osz ? osz : 1));      // exactly output_size bytes: a write at index >= output_size hits the red zone
-        memset(out, 0xEE, osz ? osz : 1);
-        long w = static_cast<long>(is_hex ? ST::hex_decode(*st, out, osz) : ST::base64_decode(*st, out, osz));
-        if (!ok) {
-            if (w != -1) v(sfmt("%s:buffer-accepted-invalid", codec), sfmt("text=%s output_size=%zu returned=%ld", showt(text).c_str(), osz, w));
-        } else if (osz < want.size()) {
-            if (w != -1) v(sfmt("%s:buffer-too-small-not-rejected", codec), sfmt("text=%s output_size=%zu returned=%ld", showt(text).c_str(), osz, w));
-            vrt::count("buffer.too_small");
-        } else {
-            if (w != static_cast<long>(want.size()) || memcmp(out, want.data(), want.size()) != 0)
-                v(sfmt("%s:buffer-wrong", codec), sfmt("text=%s output_size=%zu returned=%ld got=%s want=%s", showt(text).c_str(), osz, w, vrt::hex(out, std::min(osz, want.size())).c_str(), show(want).c_str()));
-            for (size_t k = want.size(); k < osz; ++k)
-                if (static_cast<unsigned char>(out[k]) != 0xEE) {
-                    v(sfmt("%s:wrote-beyond-returned-length", codec), sfmt("text=%s output_size=%zu byte %zu modified", showt(text).c_str(), osz, k));
-                    break;
+    std::vector<size_t> sizes = {0, c.len, c.len + 1, c.len + 64};
+    if (c.len) sizes.push_back(c.len - 1);
+    if (c.len > 2) sizes.push_back(c.len - 2);
+    if (c.len > 3) sizes.push_back(c.len / 2);
+    auto queries = [&]() { dc_query(c, 0); dc_query(c, 1000); };
+    auto buffers = [&]() { for (size_t osz : sizes) dc_buffer(c, osz); };
+    auto huge = [&]() { for (size_t osz : HUGE_SIZES) dc_huge(c, osz); };
+    switch (order % 6) {
+    case 0: dc_alloc(c); queries(); buffers(); huge(); break;
+    case 1: buffers(); dc_alloc(c); huge(); queries(); break;
+    case 2: std::reverse(sizes.begin(), sizes.end()); queries(); huge(); buffers(); dc_alloc(c); break;
+    case 3: huge(); dc_alloc(c); buffers(); queries(); break;
+    case 4: std::rotate(sizes.begin(), sizes.begin() + 1, sizes.end()); dc_alloc(c); buffers(); queries(); dc_alloc(c); huge(); break;
+    default: dc_buffer(c, c.len); dc_alloc(c); queries(); buffers(); huge(); break;
+    }
+    dc_done(c);
+}
+static void decode_case(const S &text, bool is_hex)
+{
+    vrt::Box<ST::string> st(vrt::mk(text));
+    decode_checks(*st, text, is_hex);
+}
+
+// ---------------------------------------------------------------- C15: same_storage / crosstalk / alignment / soak
+static const char BAD64[] = {'=', '=', '*', '\0', '\x80', '\xff', '-', '_', ' ', '\n', '.', ',', ':', '@', '[', '`', '{', '\xc1', '\xe1'};
+static const char BADHEX[] = {'g', 'G', '/', ':', '@', '`', '\0', '\x80', '\xff', ' ', 'x', '=', '\xb1', '\xc1', '\xe1', 'Z', '+'};
+static const S HEXAL = "0123456789abcdefABCDEF";
+static const S B64AL(B64);
+// one library call on the text object, judged by the same monitor decode_checks uses
+enum { F_ALLOC, F_QUERY, F_EXACT, F_ROOMY, F_TOO_SMALL, F_HUGE, N_FORMS };
+static const char *const FORM[] = {"allocating", "size query", "buffer of exactly the decoded size", "roomy buffer", "buffer too small", "huge declared size"};
+// true when the call has to succeed (a size query of an impossible length counts as failing)
+static bool one_call(const DC &c, unsigned form, Rng &r)
+{
+    switch (form) {
+    case F_ALLOC: dc_alloc(c); return c.ok;
+    case F_QUERY: dc_query(c, r.chance(1, 2) ? 0 : 1 + r.below(5000)); return c.implied >= 0;
+    case F_EXACT: dc_buffer(c, c.len); return c.ok;
+    case F_ROOMY: dc_buffer(c, c.len + 1 + r.below(70)); return c.ok;
+    case F_TOO_SMALL: dc_buffer(c, c.len ? c.len - 1 - r.below(std::min<size_t>(c.len, 9)) : 0); return c.ok && c.len == 0;
+    default: dc_huge(c, r.pick(HUGE_SIZES)); return c.ok;
+    }
+}
+
+static void c15_history_phases()
+{
+    // same_storage: ONE text slot whose ST::string is destroyed and rebuilt in place (object at the same address; its heap block
+    // parked and re-issued), 5..8 texts of identical length per case, each a successor of the one before: one character / a
+    // stretch in the middle changed (first and last 16 characters kept), 1/2/4/8/16/32-character records sorted / exchanged /
+    // reversed, the text rotated by 1..7 characters, a character outside the alphabet planted (and taken out again), hex
+    // letters switched between upper and lower case - valid and invalid texts following each other in both orders, the calls
+    // of one text made in a different order than those of its predecessor, sometimes the other decoder in between.
+    {
+        vrt::require("same_storage.cases", 200);
+        vrt::require("same_storage.texts_rebuilt_over_their_predecessor", 1000);
+        vrt::require("same_storage.texts_rebuilt_in_the_heap_block_of_their_predecessor", 600);
+        vrt::require("same_storage.valid_text_after_invalid_text", 150);
+        vrt::require("same_storage.invalid_text_after_valid_text", 150);
+        vrt::require("same_storage.text>=64KiB", 8);
+        // (an odd number of sizes: case i runs on worker i % 16, and every worker is to meet every size)
+        static const size_t SIZES[] = {20, 40, 64, 100, 256, 300, 512, 520, 1000, 1024, 1500, 4096, 5000, 8192, 16384, 65536, 131072};
+        const uint64_t NS = sizeof(SIZES) / sizeof(SIZES[0]), PER = NS * 2 * 2 * 4;
+        vrt::phase("same_storage", vrt::tier_count(PER * 2, PER * 20), [&](uint64_t i, Rng &r) {
+            size_t L = SIZES[i % NS];
+            const bool is_hex = (i / NS) % 2 != 0;
+            const size_t shift = (i / (NS * 2)) % 2 ? 8 : 0;
+            const uint64_t round = i / PER;
+            if (round % 2 == 1) L = (r.chance(1, 2) ? 512 + r.below(65536 - 512 + 1) : scale::length(r, 65536, 512)) / 4 * 4;
+            if (i % 67 == 41) L = 1u << 20;
+            const S &al = is_hex ? HEXAL : B64AL;
+            S text = scale_text(r, L, al);
+            size_t keep_tail = 0;
+            if (!is_hex && r.chance(1, 3)) { text[L - 1] = '='; keep_tail = 1; if (r.chance(1, 2)) { text[L - 2] = '='; keep_tail = 2; } }
+            Slot<ST::string> slot(shift);
+            const size_t K = L >= (1u << 20) ? 3 : 5 + r.below(4);
+            const uint64_t l0 = g_rebuilt_long, s0 = g_rebuilt_same_block;
+            std::string history;
+            bool prev_ok = false;
+            size_t planted = S::npos;
+            char planted_over = 0;
+            for (size_t step = 0; step < K; ++step) {
+                std::string what = "first text";
+                if (step) {
+                    const unsigned t = static_cast<unsigned>(r.below(10));
+                    if (planted != S::npos && t < 5) {                                // the bad character goes away again
+                        text[planted] = planted_over;
+                        what = sfmt("character %zu valid again", planted);
+                        planted = S::npos;
+                    } else if (t < 3 && planted == S::npos) {                            // a character outside the alphabet
+                        static const unsigned where[] = {0, 1, 2, 3, 4};
+                        const unsigned wh = r.pick(where);
+                        planted = wh == 0 ? r.below(std::min<size_t>(L, 32)) : wh == 1 ? L - 1 - r.below(std::min<size_t>(L, 32)) : wh == 2 ? L / 2 : r.below(L);
+                        planted_over = text[planted];
+                        char bad;
+                        do bad = is_hex ? r.pick(BADHEX) : r.pick(BAD64); while (bad == planted_over);
+                        text[planted] = bad;
+                        what = sfmt("character %zu replaced by 0x%02x", planted, static_cast<unsigned char>(bad));
+                    } else if (t == 3 && is_hex) {
+                        const S before = text;
+                        for (char &c : text) if ((c >= 'a' && c <= 'f') || (c >= 'A' && c <= 'F')) c = static_cast<char>(c ^ 0x20);
+                        what = "hex letters switched between upper and lower case";
+                        if (text == before) what = successor(r, text, &al, keep_tail);
+                    } else {
+                        what = successor(r, text, &al, r.chance(1, 4) ? 0 : keep_tail);
+                        if (planted != S::npos) planted = S::npos;                       // it may have moved; it is part of the text now
+                    }
                 }
-            vrt::count("buffer.success");
-        }
-        free(out);
+                rebuild(slot, text);
+                g_context = sfmt("same_storage: text %zu of %zu of %zu characters, each built where its predecessor was destroyed (object %zu mod 16); this text: %s", step + 1, K, L, shift, what.c_str());
+                const DC probe(*slot.p, text, is_hex);
+                if (step) {
+                    vrt::count("same_storage.texts_rebuilt_over_their_predecessor");
+                    if (probe.ok && !prev_ok) vrt::count("same_storage.valid_text_after_invalid_text");
+                    if (!probe.ok && prev_ok) vrt::count("same_storage.invalid_text_after_valid_text");
+                }
+                prev_ok = probe.ok;
+                const unsigned order = static_cast<unsigned>(r.below(6));
+                if (r.chance(1, 4)) decode_checks(*slot.p, text, !is_hex, static_cast<unsigned>(r.below(6)));
+                decode_checks(*slot.p, text, is_hex, order);
+                if (history.size() < 600) history += (step ? " | " : "") + what;
+            }
+            g_context.clear();
+            vrt::count("same_storage.texts_rebuilt_in_the_heap_block_of_their_predecessor", g_rebuilt_same_block - s0);
+            vrt::count("same_storage.long_texts_rebuilt", g_rebuilt_long - l0);
+            vrt::count("same_storage.cases");
+            if (L >= 65536) vrt::count("same_storage.text>=64KiB");
+            if (L >= (1u << 20)) vrt::count("same_storage.text>=1MiB");
+            if (vrt::want_sample("same_storage") && L >= 1000)
+                vrt::sample("same_storage", sfmt("%s text slot, %zu characters, %zu texts: %s", is_hex ? "hex" : "base64", L, K, history.c_str()));
+        });
     }
-    // declared sizes far above the decoded length ("unbounded" callers): the buffer
-    // really has `len` bytes, so any write past the decoded length hits the red zone
-    for (size_t osz : {static_cast<size_t>(-1), static_cast<size_t>(1) << 63, (static_cast<size_t>(1) << 63) - 1, static_cast<size_t>(1) << 32}) {
-        vrt::evals();
-        char *out = static_cast<char *>(malloc(len ? len : 1));
-        long w = static_cast<long>(is_hex ? ST::hex_decode(*st, out, osz) : ST::base64_decode(*st, out, osz));
-        if (!ok) {
-            if (w != -1) v(sfmt("%s:buffer-accepted-invalid", codec), sfmt("text=%s output_size=%zu returned=%ld", showt(text).c_str(), osz, w));
-        } else if (w != static_cast<long>(want.size()) || memcmp(out, want.data(), want.size()) != 0) {
-            v(sfmt("%s:buffer-wrong", codec), sfmt("text=%s output_size=%zu returned=%ld want=%s", showt(text).c_str(), osz, w, show(want).c_str()));
-        }
-        vrt::count("buffer.huge_output_size");
-        free(out);
+    // crosstalk: the SAME text object handed to hex_decode and base64_decode alternately, in both orders - texts that both
+    // accept (hex digits only, length a multiple of 4), that only base64_decode accepts (one character of G..Z g..z + / at the
+    // start / in the middle / in the last group / at the very end of otherwise hex digits; hex digits with '=' / '==' at the
+    // end), that only hex_decode accepts (hex digits, length 2 mod 4), that neither accepts - first all monitors of one
+    // decoder, then of the other, then of the first again, then single calls alternating between the decoders in random forms.
+    {
+        vrt::require("crosstalk.cases", 400);
+        vrt::require("crosstalk.text_only_base64_decode_accepts", 100);
+        vrt::require("crosstalk.text_only_hex_decode_accepts", 50);
+        vrt::require("crosstalk.text_both_accept", 50);
+        vrt::require("crosstalk.text_neither_accepts", 50);
+        vrt::require("crosstalk.call_that_must_succeed_directly_after_a_failing_call_of_the_other_decoder", 1000);
+        vrt::require("crosstalk.call_that_must_fail_directly_after_a_successful_call_of_the_other_decoder", 1000);
+        vrt::require("crosstalk.text>=256", 200);
+        static const size_t LENS[] = {4, 8, 12, 16, 20, 32, 60, 128, 256, 260, 300, 512, 1000, 1024, 2048, 4096, 5000};
+        const uint64_t NL = sizeof(LENS) / sizeof(LENS[0]), NC = 8, PER = NL * NC * 2;
+        vrt::phase("crosstalk", vrt::tier_count(PER * 2, PER * 40), [&](uint64_t i, Rng &r) {
+            size_t L = LENS[i % NL];
+            const unsigned comp = static_cast<unsigned>((i / NL) % NC);
+            const bool hex_first = (i / (NL * NC)) % 2 != 0;
+            const uint64_t round = i / PER;
+            if (round % 2 == 1) L = (r.chance(1, 2) ? 256 + r.below(4000) : 4 + r.below(200)) / 4 * 4;
+            if (i % 61 == 19) L = 65536;
+            static const S only64 = "GHIJKLMNOPQRSTUVWXYZghijklmnopqrstuvwxyz+/";
+            S text = scale_text(r, L, HEXAL);
+            const char *what = "";
+            switch (comp) {
+            case 0: what = "hex digits only"; break;
+            case 1: text.resize(L - 2); what = "hex digits only, length 2 mod 4"; break;
+            case 2: { const size_t at = r.below(std::min<size_t>(L, 16)); text[at] = only64[r.below(only64.size())]; what = "one base64-only character near the start"; break; }
+            case 3: { const size_t at = r.below(L); text[at] = only64[r.below(only64.size())]; what = "one base64-only character somewhere"; break; }
+            case 4: { const size_t at = L - 1 - r.below(4); text[at] = only64[r.below(only64.size())]; what = "one base64-only character in the last group"; break; }
+            case 5: text[L - 1] = '='; if (r.chance(1, 2)) text[L - 2] = '='; what = "hex digits and padding"; break;
+            case 6: { const size_t at = r.below(L); text[at] = r.pick(BAD64); what = "one character neither accepts"; break; }
+            default: if (r.chance(1, 2)) text.resize(L - 1 - 2 * r.below(2)); else text = scale_text(r, L, B64AL); what = "odd length / base64 alphabet throughout"; break;
+            }
+            vrt::Box<ST::string> st(vrt::mk(text));
+            const DC ch(*st, text, true), cb(*st, text, false);
+            vrt::count(ch.ok && cb.ok ? "crosstalk.text_both_accept" : cb.ok ? "crosstalk.text_only_base64_decode_accepts" : ch.ok ? "crosstalk.text_only_hex_decode_accepts" : "crosstalk.text_neither_accepts");
+            g_context = sfmt("crosstalk: one text object of %zu characters (%s) handed to both decoders alternately, %s first", text.size(), what, hex_first ? "hex_decode" : "base64_decode");
+            decode_checks(*st, text, hex_first, static_cast<unsigned>(r.below(6)));
+            decode_checks(*st, text, !hex_first, static_cast<unsigned>(r.below(6)));
+            decode_checks(*st, text, hex_first, static_cast<unsigned>(r.below(6)));
+            // single calls
+            vrt::cur_rewind();
+            vrt::cur_printf("%s: single calls; text=%s\n", g_context.c_str(), showt(text).c_str());
+            bool prev_hex = hex_first, prev_must_succeed = hex_first ? ch.ok : cb.ok;
+            const std::string head = g_context;
+            std::string prev_call = sfmt("all monitors of %s", hex_first ? "hex_decode" : "base64_decode");
+            const size_t calls = text.size() > 8192 ? 12 : 40;
+            for (size_t q = 0; q < calls; ++q) {
+                const bool now_hex = r.chance(1, 8) ? prev_hex : !prev_hex;
+                unsigned form = static_cast<unsigned>(r.below(N_FORMS));
+                if (r.chance(1, 2)) form = r.chance(1, 2) ? F_EXACT : F_ALLOC;
+                const std::string this_call = sfmt("%s (%s)", now_hex ? "hex_decode" : "base64_decode", FORM[form]);
+                vrt::cur_printf("%s; ", this_call.c_str());
+                g_context = sfmt("%s; single call %zu: %s directly after %s", head.c_str(), q + 1, this_call.c_str(), prev_call.c_str());
+                prev_call = this_call;
+                const bool must = one_call(now_hex ? ch : cb, form, r);
+                if (q && now_hex != prev_hex) {
+                    if (must && !prev_must_succeed) vrt::count("crosstalk.call_that_must_succeed_directly_after_a_failing_call_of_the_other_decoder");
+                    if (!must && prev_must_succeed) vrt::count("crosstalk.call_that_must_fail_directly_after_a_successful_call_of_the_other_decoder");
+                }
+                prev_hex = now_hex;
+                prev_must_succeed = must;
+                vrt::count("crosstalk.single_calls");
+            }
+            g_context.clear();
+            vrt::count("crosstalk.cases");
+            if (text.size() >= 256) vrt::count("crosstalk.text>=256");
+            if (vrt::want_sample("crosstalk") && text.size() >= 256 && cb.ok && !ch.ok)
+                vrt::sample("crosstalk", sfmt("text %s (%s): base64_decode must accept, hex_decode must reject, %s first", showt(text).c_str(), what, hex_first ? "hex_decode" : "base64_decode"));
+        });
     }
-    vrt::count(ok ? (is_hex ? "hex.valid" : "base64.valid") : (is_hex ? "hex.invalid" : "base64.invalid"));
-    vrt::distinct(vrt::fnv_u64(is_hex, vrt::fnv1a(text.data(), text.size(), 44)));
+    // alignment: the caller-buffer decoders with the OUTPUT at every distance 0..15 from a 16-byte boundary (the output still
+    // ends where its heap block ends; canary in front), for texts of 16 .. 600 characters that are valid or have one character
+    // outside the alphabet at every position among the first 32 and the last 32; buffer of exactly the decoded size and a
+    // roomy one.  Text objects at 0 and at 8 mod 16.
+    {
+        vrt::require("alignment.cases", 60);
+        vrt::require("alignment.calls", 100000);
+        vrt::require("alignment.bad_character_among_the_first_32.output_not_8_byte_aligned", 20000);
+        vrt::require("alignment.bad_character_among_the_last_32.output_not_8_byte_aligned", 20000);
+        vrt::require("alignment.valid_text.output_not_8_byte_aligned", 1000);
+        std::vector<size_t> lens;
+        for (size_t L : {16, 20, 24, 32, 36, 48, 60, 64, 68, 96, 100, 124, 128, 132, 136, 144, 160, 192, 200, 252, 256, 260, 300, 384, 400, 508, 512, 516, 600}) lens.push_back(L);
+        const uint64_t NL = lens.size();
+        vrt::phase("alignment", vrt::tier_count(NL * 2 * 2, NL * 2 * 24), [&](uint64_t i, Rng &r) {
+            size_t L = lens[i % NL];
+            const bool is_hex = (i / NL) % 2 != 0;
+            const uint64_t round = i / (NL * 2);
+            if (round >= 2) L = (16 + r.below(585)) / 4 * 4;
+            const S &al = is_hex ? HEXAL : B64AL;
+            S base = scale_text(r, L, al);
+            if (!is_hex && round % 2 == 1) { base[L - 1] = '='; if (r.chance(1, 2)) base[L - 2] = '='; }
+            std::vector<size_t> positions = {S::npos};
+            for (size_t q = 0; q < std::min<size_t>(32, L); ++q) positions.push_back(q);
+            for (size_t q = L > 32 ? L - 32 : 0; q < L; ++q) if (q >= 32) positions.push_back(q);
+            for (size_t pos : positions) {
+                S text = base;
+                char bad = 0;
+                if (pos != S::npos) {
+                    do bad = is_hex ? r.pick(BADHEX) : r.pick(BAD64); while (bad == text[pos]);
+                    text[pos] = bad;
+                }
+                vrt::Box<ST::string> st(vrt::mk(text));
+                const DC c(*st, text, is_hex);
+                vrt::cur_rewind();
+                vrt::cur_printf("alignment: %s text=%s\n", c.codec, showt(text).c_str());
+                for (int k = 0; k < 16; ++k) {
+                    g_out_align = k;
+                    g_context = pos == S::npos ? sfmt("alignment: output %d bytes past a 16-byte boundary, valid text of %zu characters", k, L)
+                                               : sfmt("alignment: output %d bytes past a 16-byte boundary, text of %zu characters with 0x%02x at %zu", k, L, static_cast<unsigned char>(bad), pos);
+                    dc_buffer(c, c.len);
+                    if ((k + pos) % 3 == 0) dc_buffer(c, c.len + 1 + r.below(24));
+                    if ((k + pos) % 7 == 0) dc_huge(c, r.pick(HUGE_SIZES));
+                    g_out_align = -1;
+                    vrt::count("alignment.calls");
+                    if (k % 8) vrt::count(pos == S::npos ? "alignment.valid_text.output_not_8_byte_aligned" : pos < 32 ? "alignment.bad_character_among_the_first_32.output_not_8_byte_aligned" : "alignment.bad_character_among_the_last_32.output_not_8_byte_aligned");
+                }
+                dc_done(c);
+            }
+            g_context.clear();
+            vrt::count("alignment.cases");
+            if (vrt::want_sample("alignment") && L == 256)
+                vrt::sample("alignment", sfmt("%s text of %zu characters: valid, and one character outside the alphabet at each of %zu positions, each decoded into outputs at 16 distances from a 16-byte boundary", is_hex ? "hex" : "base64", L, positions.size() - 1));
+        });
+    }
+    // soak: more than 70000 consecutive decoder calls in ONE case (one process) on texts of 16..64 (sometimes up to 300)
+    // characters, valid or with one character outside the alphabet, both decoders and all forms mixed; runs of 64..300 calls on
+    // the same valid text followed directly by a text that differs only in its last 1..7 characters (one of them outside the
+    // alphabet) at the same address.
+    {
+        vrt::require("soak.cases", 16);
+        vrt::require("soak.calls", 16 * 70000);
+        vrt::require("soak.runs_of_equal_calls_followed_by_a_bad_tail", 16 * 20);
+        vrt::phase("soak", vrt::tier_count(16, 64), [&](uint64_t, Rng &r) {
+            Slot<ST::string> slot(r.chance(1, 2) ? 8 : 0);
+            uint64_t done = 0, runs = 0;
+            while (done < 72000) {
+                const bool is_hex = r.chance(1, 2);
+                const size_t G = is_hex ? 2 : 4;
+                size_t L = (r.chance(1, 8) ? 65 + r.below(236) : 16 + r.below(49)) / G * G;
+                const S &al = is_hex ? HEXAL : B64AL;
+                S text = scale_text(r, L, al);
+                if (!is_hex && r.chance(1, 3)) { text[L - 1] = '='; if (r.chance(1, 2)) text[L - 2] = '='; }
+                const unsigned flavour = static_cast<unsigned>(r.below(8));
+                if (flavour == 0) text[r.below(L)] = is_hex ? r.pick(BADHEX) : r.pick(BAD64);
+                else if (flavour == 1) text.resize(L - 1 - r.below(3));
+                const bool pinned = r.chance(1, 2);
+                if (pinned) rebuild(slot, text);
+                vrt::Box<ST::string> fresh(pinned ? ST::string() : vrt::mk(text));
+                const ST::string &obj = pinned ? *slot.p : *fresh;
+                vrt::cur_rewind();
+                vrt::cur_printf("soak call %llu text=%s\n", static_cast<unsigned long long>(done), vrt::hex(text.data(), text.size()).c_str());
+                g_context = sfmt("soak: call %llu of one process", static_cast<unsigned long long>(done));
+                {
+                    const DC c(obj, text, is_hex);
+                    one_call(c, static_cast<unsigned>(r.below(N_FORMS)), r);
+                    one_call(c, r.chance(1, 2) ? F_EXACT : F_ALLOC, r);
+                    done += 2;
+                    if (r.chance(1, 4)) { const DC o(obj, text, !is_hex); one_call(o, static_cast<unsigned>(r.below(N_FORMS)), r); ++done; }
+                    if (r.chance(1, 64)) dc_done(c);
+                }
+                if (r.chance(1, 300) && L >= 16) {
+                    // a run on one valid text, then the same storage with a bad tail
+                    S good = scale_text(r, L, al);
+                    rebuild(slot, good);
+                    const size_t reps = 64 + r.below(237);
+                    g_context = sfmt("soak: calls %llu.. of one process: %zu on the same valid text, then one on a text at the same address that differs only in its last characters", static_cast<unsigned long long>(done), reps);
+                    vrt::cur_rewind();
+                    vrt::cur_printf("%s text=%s\n", g_context.c_str(), vrt::hex(good.data(), good.size()).c_str());
+                    {
+                        const DC c(*slot.p, good, is_hex);
+                        const unsigned form = r.chance(1, 2) ? static_cast<unsigned>(F_EXACT) : static_cast<unsigned>(r.below(N_FORMS));
+                        for (size_t q = 0; q < reps; ++q) one_call(c, form, r);
+                        done += reps;
+                    }
+                    S tail = good;
+                    const size_t at = L - 1 - r.below(7);
+                    tail[at] = is_hex ? r.pick(BADHEX) : r.pick(BAD64);
+                    if (r.chance(1, 2)) for (size_t q = at + 1; q < L; ++q) tail[q] = al[r.below(al.size())];
+                    rebuild(slot, tail);
+                    vrt::cur_printf("then text=%s\n", vrt::hex(tail.data(), tail.size()).c_str());
+                    {
+                        const DC c(*slot.p, tail, is_hex);
+                        one_call(c, r.chance(1, 2) ? F_EXACT : F_ALLOC, r);
+                        one_call(c, static_cast<unsigned>(r.below(N_FORMS)), r);
+                        done += 2;
+                    }
+                    ++runs;
+                }
+            }
+            g_context.clear();
+            vrt::count("soak.cases");
+            vrt::count("soak.calls", done);
+            vrt::count("soak.runs_of_equal_calls_followed_by_a_bad_tail", runs);
+            vrt::distinct(vrt::fnv_u64(done, 48));
+            if (vrt::want_sample("soak")) vrt::sample("soak", sfmt("%llu consecutive decoder calls (both decoders, all forms, valid and invalid texts of 16..300 characters) in one case, %llu runs of 64..300 calls on one text", static_cast<unsigned long long>(done), static_cast<unsigned long long>(runs)));
+        });
+    }
 }
 
 static void c15_body()
@@ -902,6 +1715,7 @@ static void c15_body()
                                           decoded_units ? "decoded bytes" : "characters", from_end ? "end" : "beginning", bpos, WHERE[where], at));
         });
     }
+    c15_history_phases();
 }
 
 static void body()
@@ -919,6 +1733,8 @@ static void body()
         }
     });
 
+    // text objects (vrt::Box) at 8 mod 16 as well as at 0 mod 16: short texts live inside the object
+    vrt::box_shifts() = true;
     if (vrt::is_prop("C15")) { PROP = "C15"; c15_body(); }
     else c14_body();
     vrt::alloc::check_pairing("codec");
